@@ -1065,6 +1065,30 @@ func c16Selects(sp *c16Spec, p c16Pair, t *c16Table) (acc string, failing []stri
 	return out, failing
 }
 
+// dropDefaults returns the spec without the numeric options whose value is the built-in default
+// (the code cannot tell them from absent options) and the names of the options dropped
+func (sp *c16Spec) dropDefaults() (*c16Spec, string) {
+	c := *sp
+	var names []string
+	if c.C != nil && *c.C == 2000000000 {
+		c.C = nil
+		names = append(names, "C")
+	}
+	if c.L != nil && *c.L == 2000000000 {
+		c.L = nil
+		names = append(names, "L")
+	}
+	if c.c != nil && *c.c == 1 {
+		c.c = nil
+		names = append(names, "c")
+	}
+	if c.l != nil && *c.l == 1 {
+		c.l = nil
+		names = append(names, "l")
+	}
+	return &c, strings.Join(names, "+")
+}
+
 // ---------------------------------------------------------------------------------------------
 // reference interpreter: edits
 
@@ -1297,19 +1321,16 @@ func (c16) execGrep(sp *c16Spec, recs []c16Pair) (string, []Fail) {
 				}
 			}
 			var sig string
-			onlyDefault := len(fs) > 0
-			if p.mate != nil {
-				_, fm := c16Base(sp, *p.mate, tab)
-				fs = append(fs, fm...)
-				onlyDefault = len(fs) > 0
-			}
-			for _, f := range fs {
-				onlyDefault = onlyDefault && strings.HasSuffix(f, "-default")
+			onlyDefault := false
+			if sp2, dn := sp.dropDefaults(); dn != "" {
+				if e2, _ := c16Selects(sp2, p, tab); strings.Contains(e2, v) {
+					onlyDefault = true // explained by "an option equal to its default is taken as absent"
+					fs = []string{dn}
+				}
 			}
 			switch {
-			case sp.paired && onlyDefault:
-				sort.Strings(fs)
-				sig = "grep.paired.ignored." + strings.Join(c16Uniq(fs), "+")
+			case onlyDefault:
+				sig = "grep.default-value-ignored." + fs[0]
 			case sp.paired:
 				sig = "grep.paired-" + sp.pm + "." + c16Kinds(sp)
 			case v == "1" && !sp.v:
@@ -1360,26 +1381,25 @@ func (c16) execAnnot(sp *c16Spec, recs []c16Pair) (string, []Fail) {
 	tab := &c16Table{}
 	ren, tag := c16SortedPairs(sp.ren), c16SortedPairs(sp.tag)
 	exp := make([]string, len(recs))
-	dfl := make([]string, len(recs)) // non-empty: the record is rejected only by options equal to their defaults
-	for i, p := range recs {
-		acc, failing := c16Selects(sp, c16Pair{r: p.r}, tab)
-		only := len(failing) > 0 && acc == "0" && !sp.v
-		for _, f := range failing {
-			only = only && strings.HasSuffix(f, "-default")
-		}
-		if only {
-			sort.Strings(failing)
-			dfl[i] = strings.Join(c16Uniq(failing), "+")
-		}
+	dfl := make([]string, len(recs)) // what is expected when the options equal to their defaults are taken as absent
+	sp2, dn := sp.dropDefaults()
+	expOf := func(spx *c16Spec, r c16Rec) string {
+		acc, _ := c16Selects(spx, c16Pair{r: r}, tab)
+		ed := c16RefAnnot(spx, r, tab, ren, tag) // always evaluated: fills the table of library verdicts
 		switch {
 		case acc == "1":
-			exp[i] = c16RefAnnot(sp, p.r, tab, ren, tag)
+			return ed
 		case acc == "0":
-			exp[i] = "absent"
+			return "absent"
 		case acc == "F":
-			exp[i] = "fatal"
-		default:
-			exp[i] = "fatal|absent"
+			return "fatal"
+		}
+		return "fatal|absent"
+	}
+	for i, p := range recs {
+		exp[i] = expOf(sp, p.r)
+		if dn != "" {
+			dfl[i] = expOf(sp2, p.r)
 		}
 	}
 	caseOverride = "annot " + strings.Join(sp.toks(), " ") + " | " + c16ShowRecs(recs) + " | " + tab.String()
@@ -1445,8 +1465,8 @@ func (c16) execAnnot(sp *c16Spec, recs []c16Pair) (string, []Fail) {
 		}
 		if !okv {
 			sig := "annot.edit." + c16Kinds(sp)
-			if dfl[i] != "" {
-				sig = "annot.ignored." + dfl[i]
+			if dfl[i] != "" && dfl[i] == out[i] {
+				sig = "annot.default-value-ignored." + dn
 			}
 			fails = append(fails, Fail{Sig: sig, Text: fmt.Sprintf("record %d (%s): expected %s, got %s", i, recs[i].r.show(), exp[i], out[i])})
 		}
@@ -1631,6 +1651,25 @@ func (c16) execGrepIO(sp *c16Spec, recs []c16Pair) (string, []Fail) {
 	if _, ok := c16Truth[sp.pm]; !ok {
 		return "bad-op", nil
 	}
+	// what is expected when the options equal to their defaults are taken as absent
+	sp2, dn := sp.dropDefaults()
+	var alt [4][]string
+	if dn != "" {
+		for _, p := range recs {
+			switch acc, _ := c16Selects(sp2, p, tab); acc {
+			case "1":
+				alt[0] = append(alt[0], p.r.id)
+				if p.mate != nil {
+					alt[1] = append(alt[1], p.mate.id)
+				}
+			case "0":
+				alt[2] = append(alt[2], p.r.id)
+				if p.mate != nil {
+					alt[3] = append(alt[3], p.mate.id)
+				}
+			}
+		}
+	}
 	caseOverride = "grepio " + strings.Join(sp.toks(), " ") + " | " + c16ShowRecs(recs) + " | " + tab.String()
 	if fatalPossible {
 		return "bad-op", nil // end-to-end cases are generated without failing expressions
@@ -1715,6 +1754,23 @@ func (c16) execGrepIO(sp *c16Spec, recs []c16Pair) (string, []Fail) {
 		res = append(res, "disc="+check("discarded", discFn, expDisc, false))
 	}
 	caseTrivial = len(recs) == 0
+	if len(fails) > 0 && dn != "" {
+		show := func(ids []string) string {
+			if len(ids) == 0 {
+				return "-"
+			}
+			return strings.Join(ids, ",")
+		}
+		var want string
+		if sp.paired {
+			want = "kept1=" + show(alt[0]) + " kept2=" + show(alt[1]) + " disc1=" + show(alt[2]) + " disc2=" + show(alt[3])
+		} else {
+			want = "kept=" + show(alt[0]) + " disc=" + show(alt[2])
+		}
+		if want == strings.Join(res, " ") {
+			fails = []Fail{{Sig: "grepio.default-value-ignored." + dn, Text: fails[0].Text}}
+		}
+	}
 	return strings.Join(res, " "), fails
 }
 
